@@ -135,8 +135,15 @@ func c18New(region int, extra int) {
 
 	l, err := NewLinearFeeFunction(end, ct, est, startOpt)
 
+	reach := func(label string) {
+		// reach labels (replayed witnesses must pass every assertion) only
+		// on the main region
+		if region == c18RegionMain {
+			vReach(label)
+		}
+	}
 	if ct <= 1 {
-		vReach("deadline-reached")
+		reach("deadline-reached")
 		vAssert(err == nil && l != nil, "confTarget<=1: construction succeeds")
 		vAssert(l.FeeRate() == end && l.startingFeeRate == end && l.endingFeeRate == end,
 			"confTarget<=1: the ceiling is used immediately")
@@ -148,20 +155,20 @@ func c18New(region int, extra int) {
 		vAssert(l == nil, "failed construction returns no fee function")
 		switch {
 		case errors.Is(err, ErrZeroFeeRateDelta):
-			vReach("refused-zero-delta")
+			reach("refused-zero-delta")
 			vAssert(ct != 2, "a zero delta is accepted when the width is 1")
 		case errors.Is(err, c18ErrEst):
-			vReach("refused-estimator-error")
+			reach("refused-estimator-error")
 			vAssert(est.fail && ct < 1008 && !given, "estimator error reported only when the estimator was asked and failed")
 		case errors.Is(err, ErrFeePreferenceTooLow):
-			vReach("refused-below-relay")
+			reach("refused-below-relay")
 			vAssert(est.rate < est.relay && !given, "ErrFeePreferenceTooLow only when the estimate is below the relay floor")
 		default:
 			vAssert(false, "unexpected construction error")
 		}
 		return
 	}
-	vReach("constructed")
+	reach("constructed")
 	vObserve("start", int64(l.startingFeeRate))
 	vObserve("delta", int64(l.deltaFeeRate))
 	// cap: never start above the ceiling
